@@ -16,4 +16,10 @@ CLAIMS["C08"] = {
     "note": NOTE,
 }
 
+CLAIMS["C09"] = {
+    "text": "Decides (i) exhaustiveness of the usage scan against clingo's AST grammar: every statement kind with a body field (except #show terms, observable only through OUT) and every non-literal head kind (Disjunction, Aggregate, HeadAggregate, TheoryAtom) has its element conditions and literals scanned, with arguments of the right multiplicity for the callee (kind typing over the schema - this is what found the TypeError on head aggregates, now fixed); #show/#project signatures and the declared IN/OUT predicates get every position marked unconditionally; (ii) projection keeps exactly the observed positions, names the shrunken predicate freshly and is applied to every symbolic atom; (iii) a rule is deleted only if it is a Rule with a plain positive symbolic head whose predicate is not in `used`; (iv) the unfold side-condition matrix for copy rules (not IN/OUT, single definition, positive predicate head and single positive predicate body literal, variable head arguments, equal arity, no self copy, every statement rewritten) - the missing 'pairwise distinct head variables' condition is a recorded known finding (A-02); (v) anonymisation only for variables counted once over the whole statement, outside aggregates. Does not decide that 'unobserved' implies unobservable for every program.",
+    "technique": "grammar-driven exhaustiveness + kind/multiplicity typing + must-pass-through guards by abstract interpretation of unused.py",
+    "note": NOTE,
+}
+
 NOT_APPLICABLE: dict[str, str] = {}
